@@ -528,9 +528,11 @@ func (ss *SpecSet) ParseSpecText(file string, lines []string, lineNos []int) err
 			cur = &Contract{Func: name, Extern: word == "extern", LoopInv: map[int][]*Clause{}, LoopMod: map[int][]string{}, File: file, Line: ln, Params: params}
 			curDef = nil
 			if old, ok := ss.Contracts[name]; ok {
-				return fail(fmt.Errorf("duplicate contract for %s (first at %s:%d)", name, old.File, old.Line))
+				// several blocks for one function are merged
+				cur = old
+			} else {
+				ss.Contracts[name] = cur
 			}
-			ss.Contracts[name] = cur
 		case "default":
 			curDef = &DefaultRule{Pattern: strings.TrimSpace(rest)}
 			cur = nil
